@@ -56,6 +56,36 @@ theorem simp_dqWord (f : Nat) (n : Bytes) :
     simp [simp, visit, this, Node.kids, Node.ty, Node.attrs, Node.val, hd]
 
 
+theorem simp_wordPE (f : Nat) (n : Bytes) : simp f (wordPE n) = (wordPE n, false) := by
+  cases f with
+  | zero => rfl
+  | succ f =>
+    simp only [simp, wordPE, visit, removeParensArithm_nil]
+    simp [Node.kids, Node.ty, Node.attrs, Node.val, simp_nil, simp_lit, simp_emptyList, simp_litWord]
+
+theorem simp_wpeWord (f : Nat) (n : Bytes) :
+    simp f (.mk .word [] [] [wordPE n]) = (.mk .word [] [] [wordPE n], false) := by
+  cases f with
+  | zero => rfl
+  | succ f =>
+    have : simplifyWord [wordPE n] = ([wordPE n], false) := by
+      simp [simplifyWord, wordPE]
+    simp [simp, visit, this, Node.kids, Node.ty, Node.attrs, Node.val, simp_wordPE]
+
+theorem simp_dqwWord (f : Nat) (n : Bytes) :
+    simp f (.mk .word [] [] [.mk .dbl [0] [] [wordPE n]]) =
+      (.mk .word [] [] [.mk .dbl [0] [] [wordPE n]], false) := by
+  cases f with
+  | zero => rfl
+  | succ f =>
+    have : simplifyWord [.mk .dbl [0] [] [wordPE n]] = ([.mk .dbl [0] [] [wordPE n]], false) := by
+      simp [simplifyWord, wordPE]
+    have hd : simp f (.mk .dbl [0] [] [wordPE n]) = (.mk .dbl [0] [] [wordPE n], false) := by
+      cases f with
+      | zero => rfl
+      | succ f => simp [simp, visit, Node.kids, Node.ty, Node.attrs, Node.val, simp_wordPE]
+    simp [simp, visit, this, Node.kids, Node.ty, Node.attrs, Node.val, hd]
+
 /-! ### arithmetic -/
 
 section ArithBridge
@@ -226,6 +256,8 @@ theorem simp_twordNode (f : Nat) (w : TWord) : simp f w.toNode = (w.toNode, fals
   cases w with
   | bare p => exact simp_peWord f false _
   | quoted p => exact simp_dqWord f _
+  | bareW p => exact simp_wpeWord f _
+  | quotedW p => exact simp_dqwWord f _
   | other w => exact simp_litWord f _
 
 theorem tdepth_pos (x : Test) : 0 < x.depth := by cases x <;> simp [Test.depth]
@@ -295,7 +327,9 @@ theorem removeParensTest_toNode : ∀ (x : Test) (k : Nat), x.depth ≤ k →
 theorem unquoteParams_twordNode (w : TWord) : (unquoteParams w.toNode).1 = (unqW w).toNode := by
   cases w with
   | bare p => simp [unquoteParams, TWord.toNode, unqW, simplePE]
-  | quoted p => simp [unquoteParams, TWord.toNode, unqW, simplePE, Node.ty]
+  | quoted p => simp [unquoteParams, TWord.toNode, unqW, simplePE, Node.ty, Node.attrs]
+  | bareW p => simp [unquoteParams, TWord.toNode, unqW, wordPE]
+  | quotedW p => simp [unquoteParams, TWord.toNode, unqW, wordPE, Node.ty, Node.attrs]
   | other w => simp [unquoteParams, TWord.toNode, unqW, litWord]
 
 theorem unquoteParams_toNode (x : Test) : (unquoteParams x.toNode).1 = (unquote x).toNode := by
@@ -462,21 +496,25 @@ def dqWord (a : List Nat) (v : Bytes) (d : Nat) (lit : Bytes) : Node :=
 
 theorem simplifyWord_dq (d : Nat) (lit : Bytes) :
     (simplifyWord [.mk .dbl [d] [] [.mk .lit [] lit []]]).1 =
-      [match rewriteDq lit with
+      [match rewriteDq (d != 0) lit with
        | some nv => .mk .sgl [d] nv []
        | none => .mk .dbl [d] [] [.mk .lit [] lit []]] := by
-  simp only [simplifyWord, rewriteDq]
-  cases h : dqToSq lit with
-  | none => simp
-  | some nv =>
-    by_cases e : nv = lit
-    · simp [e]
-    · simp [e]
+  simp only [simplifyWord, rewriteDq, List.getD_cons_zero]
+  by_cases hd : d = 0
+  · subst hd
+    simp only [bne_self_eq_false, Bool.false_eq_true, if_false]
+    cases h : dqToSq lit with
+    | none => simp
+    | some nv =>
+      by_cases e : nv = lit
+      · simp [e]
+      · simp [e]
+  · simp [hd]
 
-/-- What `Simplify` does to a word that is one `"lit"` (`d = 0`) or `$"lit"` (`d = 1`). -/
+/-- What `Simplify` does to a word that is one `"lit"` (`d = 0`) or `$"lit"` (`d = 1`, left alone). -/
 theorem simplify_dqWord (a : List Nat) (v : Bytes) (d : Nat) (lit : Bytes) :
     (simplify (dqWord a v d lit)).1 =
-      .mk .word a v [match rewriteDq lit with
+      .mk .word a v [match rewriteDq (d != 0) lit with
        | some nv => .mk .sgl [d] nv []
        | none => .mk .dbl [d] [] [.mk .lit [] lit []]] := by
   have hs : 2 * size (dqWord a v d lit) + 1 = 6 + 1 := by
@@ -484,7 +522,7 @@ theorem simplify_dqWord (a : List Nat) (v : Bytes) (d : Nat) (lit : Bytes) :
   unfold simplify
   rw [hs]
   have h := simplifyWord_dq d lit
-  cases hr : rewriteDq lit with
+  cases hr : rewriteDq (d != 0) lit with
   | some nv =>
     rw [hr] at h
     simp [simp, dqWord, visit, h, Node.kids, Node.ty, Node.attrs, Node.val]
